@@ -367,8 +367,14 @@ def run(prog: Program, L: Ledger) -> None:
             stxt_show = f"{norm(sarg.elt)} for {norm(g0.target)} in {it0[:60]}" + (f" if {norm(g0.ifs[0])[:50]}" if g0.ifs else "")
         else:
             stxt_show = stxt
+        if isinstance(sarg, (ast.SetComp, ast.Set)) or (isinstance(sarg, ast.Call) and norm(sarg.func) in ("set", "frozenset")):
+            why = "the counts are collected in a SET: equal minimum counts of different moves are added once"
+        elif isinstance(sarg, (ast.ListComp, ast.GeneratorExp)) and sarg.generators and sarg.generators[0].ifs:
+            why = "minimum counts committed by moves excluded by the filter (e.g. not due right now, interval > 1) are ignored"
+        else:
+            why = "some committed minimum counts are not added (or added differently)"
         L.check(ok_sum, "M5", "add_move:sum", f"{add.module.relpath}:{g.lineno}", f"`{stxt_show[:120]}` is not the sum of the minimum counts of ALL stored moves",
-                "minimum counts committed by moves that are not due right now (interval > 1) are ignored: an over-committing move is accepted and a later step cannot place its forced moves", stxt[:120])
+                f"{why}: an over-committing move is accepted and a later step cannot place its forced moves", stxt[:120])
 
         class R(ast.NodeTransformer):
             def visit_Call(self, node):
